@@ -54,6 +54,9 @@ pub fn call_line<R: Resampler<f64>, N: crate::nd::Nondet, const MI: usize, const
 /// kernel reads (Linear: 1).
 macro_rules! warp_checks {
     ($st:ident, $tau:ident, $n:expr, $MO:expr, $t0:expr, $t1:expr, $ramp:expr, $reach:expr, $region:literal) => {{
+        warp_checks!($st, $tau, $n, $MO, $t0, $t1, $ramp, $reach, $region, false, "unused_region")
+    }};
+    ($st:ident, $tau:ident, $n:expr, $MO:expr, $t0:expr, $t1:expr, $ramp:expr, $reach:expr, $region:literal, $inreg:expr, $region2:literal) => {{
         let lo = (if $t0 < $t1 { $t0 } else { $t1 }) - EPS;
         let hi = (if $t0 < $t1 { $t1 } else { $t0 }) + EPS;
         let mut prev = $st.last;
@@ -83,11 +86,17 @@ macro_rules! warp_checks {
                 have = true;
             }
         });
-        check!(fwd, concat!("C06.forward[", $region, "]"));
-        check!(bounds, concat!("C06.spacing_bounds[", $region, "]"));
-        check!(step, concat!("C06.step_immediate[", $region, "]"));
-        check!(mono, concat!("C06.ramp_monotone[", $region, "]"));
-        check!(supplied, concat!("C06.supplied[", $region, "]"));
+        let inreg: bool = $inreg;
+        check!(fwd || inreg, concat!("C06.forward[", $region, "]"));
+        check!(bounds || inreg, concat!("C06.spacing_bounds[", $region, "]"));
+        check!(step || inreg, concat!("C06.step_immediate[", $region, "]"));
+        check!(mono || inreg, concat!("C06.ramp_monotone[", $region, "]"));
+        check!(supplied || inreg, concat!("C06.supplied[", $region, "]"));
+        check!(fwd || !inreg, concat!("C06.forward[", $region2, "]"));
+        check!(bounds || !inreg, concat!("C06.spacing_bounds[", $region2, "]"));
+        check!(step || !inreg, concat!("C06.step_immediate[", $region2, "]"));
+        check!(mono || !inreg, concat!("C06.ramp_monotone[", $region2, "]"));
+        check!(supplied || !inreg, concat!("C06.supplied[", $region2, "]"));
         $st.last = prev;
         $st.have_last = have;
         $st.produced += $n;
@@ -105,7 +114,8 @@ macro_rules! steady_checks {
         let delay = $r.output_delay() as f64;
         let tolj = (if $ratio > 1.0 { $ratio } else { 1.0 }) + 1.0;
         unroll32!(j, $MO, {
-            if j < $n {
+            // frames evaluated before the start of the stream read the zero pre-roll: not observable
+            if j < $n && $tau[j] >= 0.0 {
                 let t = $tau[j];
                 if have {
                     let d = t - prev;
@@ -157,7 +167,8 @@ harnesses! {
         let t1 = 1.0 / newr;
         let (ok, _, n) = call_line::<_, _, 14, 3>(nd, &mut r, &mut st, &mut tau);
         check!(ok, "C03.ok[base]");
-        warp_checks!(st, tau, n, 3, 1.0, t1, ramp, 1, "base");
+        let pending = ramp && newr != 1.0;
+        warp_checks!(st, tau, n, 3, 1.0, t1, ramp, 1, "base", pending, "ramp_pending");
         cover!(ok && ramp && newr < 0.6, "ramped slow-down explored");
         cover!(ok && !ramp && newr > 1.9, "stepped speed-up explored");
         forget(r);
@@ -184,7 +195,8 @@ harnesses! {
         let t1 = 1.0 / newr;
         let (ok, _, n) = call_line::<_, _, 14, 3>(nd, &mut r, &mut st, &mut tau);
         check!(ok, "C03.ok[base]");
-        warp_checks!(st, tau, n, 3, 1.0, t1, ramp, 1, "base");
+        let pending = ramp && newr != 1.0;
+        warp_checks!(st, tau, n, 3, 1.0, t1, ramp, 1, "base", pending, "ramp_pending");
         cover!(ok && ramp && newr < 0.6, "ramped slow-down explored");
         cover!(ok && !ramp && newr > 1.9, "stepped speed-up explored");
         forget(r);
@@ -210,9 +222,13 @@ harnesses! {
         probe::set_strict(true);
         let (ok, _, n) = call_line::<_, _, 14, 3>(nd, &mut r, &mut st, &mut tau);
         check!(ok, "C03.ok[base]");
-        check!(!probe::offline(), "C06.window_on_supplied_data[base]");
+        let pending = ramp && newr != 1.0;
+        check!(!probe::offline() || pending, "C06.window_on_supplied_data[base]");
+        check!(!probe::offline() || !pending, "C06.window_on_supplied_data[ramp_pending]");
         check!(!probe::bad_window() && !probe::bad_subindex(), "C03.kernel_window[base]");
-        warp_checks!(st, tau, n, 3, 1.0, t1, ramp, 4, "base");
+        warp_checks!(st, tau, n, 3, 1.0, t1, ramp, 4, "base", pending, "ramp_pending");
+        cover!(pending, "ramp_pending region explored");
+        cover!(!pending, "base region explored");
         cover!(ok && ramp, "ramped change explored");
         forget(r);
     }
@@ -238,10 +254,16 @@ harnesses! {
         probe::set_strict(true);
         let (ok, _, n) = call_line::<_, _, 14, 3>(nd, &mut r, &mut st, &mut tau);
         check!(ok, "C03.ok[base]");
-        check!(!probe::offline(), "C06.window_on_supplied_data[base]");
+        // recorded finding F6: during a ramp the fixed-output types size their input from the mean
+        // ratio while the position advances by the mean reciprocal (region `ramp_pending`)
+        let pending = ramp && newr != 1.0;
+        check!(!probe::offline() || pending, "C06.window_on_supplied_data[base]");
+        check!(!probe::offline() || !pending, "C06.window_on_supplied_data[ramp_pending]");
         check!(!probe::bad_window() && !probe::bad_subindex(), "C03.kernel_window[base]");
         // the probe's value stands for the window centre: the window reaches len/2 beyond it
-        warp_checks!(st, tau, n, 3, 1.0, t1, ramp, 4, "base");
+        warp_checks!(st, tau, n, 3, 1.0, t1, ramp, 4, "base", pending, "ramp_pending");
+        cover!(pending, "ramp_pending region explored");
+        cover!(!pending, "base region explored");
         cover!(ok && ramp, "ramped change explored");
         forget(r);
     }
@@ -282,6 +304,37 @@ harnesses! {
         check!(start_ok2, "C08.uniform_instants_from_start[base]");
         st.have_last = false;
         steady_checks!(r, st, tau, n, 3, newr, t, 8, "base");
+        cover!(newr < 0.6, "slow ratio explored");
+        cover!(newr > 1.9, "fast ratio explored");
+        forget(r);
+    }
+
+    // quick variant of the steady-state checks: ratio on the k/32 grid, one observed call
+    #[kani::unwind(8)]
+    fn c07_ffo_steady_grid(nd) {
+        let mut r = FastFixedOut::<f64>::new(1.0, 2.0, PolynomialDegree::Linear, 4, 1).unwrap();
+        let k = nd.u8();
+        let newr = (k as f64) / 32.0;
+        nd.assume(r.set_resample_ratio(newr, false).is_ok());
+        let t = 1.0 / newr;
+        let mut st = new_stream!();
+        let mut tau = [0.0f64; 4];
+        let (ok, _, n) = call_line::<_, _, 16, 4>(nd, &mut r, &mut st, &mut tau);
+        check!(ok, "C03.ok[base]");
+        st.produced += n;
+        let (ok, _, n) = call_line::<_, _, 16, 4>(nd, &mut r, &mut st, &mut tau);
+        check!(ok, "C03.ok[base]");
+        let mut start_ok2 = true;
+        unroll32!(j, 4, {
+            let want = -4.0 + ((4 + j + 1) as f64) * t;
+            if want >= 0.0 && j < n {
+                if !(tau[j] >= want - 64.0 * EPS && tau[j] <= want + 64.0 * EPS) { start_ok2 = false; }
+            }
+        });
+        check!(start_ok2, "C08.uniform_instants_from_start[base]");
+        st.have_last = false;
+        steady_checks!(r, st, tau, n, 4, newr, t, 8, "base");
+        cover!(newr > 1.9 && st.have_last, "a frame inside the stream was observed at a fast ratio");
         cover!(newr < 0.6, "slow ratio explored");
         cover!(newr > 1.9, "fast ratio explored");
         forget(r);
